@@ -428,17 +428,40 @@ struct RefsWorld : World {
 						if (o < 3 && n0 > 0) {
 							uintptr_t r; { Sut su; r = obj[o]->addref(); }
 							if (r) {
-								bool ok; { Sut su; ok = cp->insert(0, obj[o]); }
-								log.ev("    insert through a second handle on %ld shared entries -> %d", n0, (int) ok); st.hit("probe:reference_array_shared_insert");
+								std::vector<metatype *> ents; for (long q = 0; q < n0; ++q) ents.push_back(ra2->begin()[q].instance());
+								unsigned var = (unsigned) (op.c >> 5) % 4; bool ok = false; long cl = 0;
+								if (var == 0) { Sut su; ok = cp->insert(0, obj[o]); }
+								else if (var == 1) { Sut su; ok = cp->set(0, obj[o]); }
+								else if (var == 2) { Sut su; cl = cp->clear(); }
+								else { Sut su; cp->compact(); }
+								log.ev("    %s through a second handle on %ld shared entries -> %d", var == 0 ? "insert" : var == 1 ? "set" : var == 2 ? "clear" : "compact", n0, var == 2 ? (int) cl : (int) ok); st.hit("probe:reference_array_shared_insert");
+								// the first handle reads what it held: the same entries in the same places
+								if (ra2->length() != n0) fail("other-handle-changed", "a reference_array of %ld entries has %ld after %s through a copy of it", n0, ra2->length(), var == 0 ? "insert" : var == 1 ? "set" : var == 2 ? "clear" : "compact");
+								for (long q = 0; q < n0; ++q) if (ra2->begin()[q].instance() != ents[(size_t) q]) fail("other-handle-changed", "entry %ld of a reference_array changed after %s through a copy of it", q, var == 1 ? "set" : var == 2 ? "clear" : var == 3 ? "compact" : "insert");
 								if (ok) ++held[o]; else { Sut su; obj[o]->unref(); }
+								if (ok) { Sut su; delete cp; cp = 0; --held[o]; }     // an accepted change went to a private copy: it goes away with the second handle
 								for (int i = 0; i < 3; ++i) if (before[i] >= 0 && alive(i) && obj[i]->refs != before[i] + held[i])
 									fail("count-mismatch", "object %d counts %ld references, %ld expected after an insert through a second handle of a reference_array (%s)", i, obj[i]->refs, before[i] + held[i], ok ? "accepted" : "refused");
 							}
 						}
-						{ Sut su; delete cp; }
+						if (cp) { Sut su; delete cp; }
 						for (int i = 0; i < 3; ++i) if (before[i] >= 0 && alive(i) && obj[i]->refs != before[i] + held[i])
 							fail("count-mismatch", "object %d counts %ld references, %ld expected after the second handle of a reference_array went away", i, obj[i]->refs, before[i] + held[i]);
 						check_pending();
+					}
+					if (items && (op.c & 8) && ia->length() > 0) {
+						// the same for named entries: compaction through a copy of the array leaves the first handle's entries where they are
+						long n0 = ia->length(); std::vector<std::pair<metatype *, std::string> > ents;
+						for (long q = 0; q < n0; ++q) { const char *nm; { Sut su; nm = ia->begin()[q].name(); } ents.push_back(std::make_pair(ia->begin()[q].instance(), std::string(nm ? nm : ""))); }
+						item_array<metatype> *cp; { Sut su; cp = new item_array<metatype>(*ia); }
+						{ Sut su; cp->compact(); }
+						st.hit("probe:item_array_shared_compact");
+						if (ia->length() != n0) fail("other-handle-changed", "an item_array of %ld entries has %ld after compact through a copy of it", n0, ia->length());
+						for (long q = 0; q < n0; ++q) { const char *nm; { Sut su; nm = ia->begin()[q].name(); }
+							if (ia->begin()[q].instance() != ents[(size_t) q].first || std::string(nm ? nm : "") != ents[(size_t) q].second) fail("other-handle-changed", "entry %ld of an item_array changed after compact through a copy of it", q); }
+						{ Sut su; delete cp; }
+						for (int i = 0; i < 3; ++i) if (before[i] >= 0 && alive(i) && obj[i]->refs != before[i] + held[i])
+							fail("count-mismatch", "object %d counts %ld references, %ld expected after the second handle of an item_array went away", i, obj[i]->refs, before[i] + held[i]);
 					}
 					if (items) { Sut su; delete ia; } else { Sut su; delete ra2; }
 				}
